@@ -1,10 +1,61 @@
 import SV.Wire
 import SV.Model.C14
-open SV SV.Wire SV.Model.C14
+import SV.Spec.C14
+open SV SV.Wire SV.Model.C14 SV.Spec.C14
 
 def decDict (j : Json) : Except String Dict := asPairs asChars asStr j
 def encDict (d : Dict) : Json := .arr (d.map fun (k, v) => .arr [jstr k, .str v])
 def decOptDict (j : Json) : Except String (Option Dict) := asOpt decDict j
+
+def locName : Loc → String
+  | .query => "query" | .headers => "headers" | .cookies => "cookies" | .path => "path_parameters"
+
+def decLoc (j : Json) : Except String Loc := do
+  match (← asStr j) with
+  | "query" => return .query
+  | "headers" => return .headers
+  | "cookies" => return .cookies
+  | "path_parameters" => return .path
+  | s => .error s!"unknown location {s}"
+
+/-- {"query": [[k, v], …], …}; a missing location is the empty dict -/
+def decOverrides (j : Json) : Except String Overrides := do
+  let q ← match optField j "query" with | .null => pure [] | x => decDict x
+  let h ← match optField j "headers" with | .null => pure [] | x => decDict x
+  let c ← match optField j "cookies" with | .null => pure [] | x => decDict x
+  let p ← match optField j "path_parameters" with | .null => pure [] | x => decDict x
+  return fun l => match l with | .query => q | .headers => h | .cookies => c | .path => p
+
+/-- {"query": [[k, v], …] | null, …} -/
+def decContainers (j : Json) : Except String Containers := do
+  let q ← decOptDict (optField j "query")
+  let h ← decOptDict (optField j "headers")
+  let c ← decOptDict (optField j "cookies")
+  let p ← decOptDict (optField j "path_parameters")
+  return fun l => match l with | .query => q | .headers => h | .cookies => c | .path => p
+
+def encOverrides (o : Overrides) : Json := jobj (Loc.all.map fun l => (locName l, encDict (o l)))
+def encContainers (c : Containers) : Json :=
+  jobj (Loc.all.map fun l => (locName l, match c l with | some d => encDict d | none => .null))
+
+def decOp (j : Json) : Except String Op := do
+  let ps ← asPairs decLoc asChars (← field j "params")
+  return ⟨← asChars (← field j "path"), ← asChars (← field j "method"), ps⟩
+
+def decVariant (j : Json) : Except String Variant := do
+  match (← asStr j) with
+  | "asFound" => return .asFound
+  | "repaired" => return .repaired
+  | s => .error s!"unknown variant {s}"
+
+def encOptStr : Option String → Json | some s => .str s | none => .null
+
+def encVerdict : Verdict → Json
+  | .missing l n want got => .arr [.str "missing", .str (locName l), jstr n, .str want, encOptStr got]
+  | .invented l n v => .arr [.str "invented", .str (locName l), jstr n, .str v]
+
+def decSteps (j : Json) : Except String (List (Op × Containers)) := do
+  (← asArr j).mapM fun s => do return (← decOp (← field s "op"), ← decContainers (← field s "case"))
 
 def handle : Handler := fun op a => do
   match op with
@@ -33,6 +84,28 @@ def handle : Handler := fun op a => do
     match chooseStorage t s g with
     | some st => return .arr (st.map fun x => match x with | some d => jnat d | none => .null)
     | none => return .str "none"
+  | "for_operation" =>
+    return encOverrides (forOperation (← decOverrides (← field a "ov")) (← decOp (← field a "op")))
+  | "strategy_kwargs" =>
+    let applied := forOperation (← decOverrides (← field a "ov")) (← decOp (← field a "op"))
+    return encContainers (strategyKwargsWith (← decVariant (← field a "variant")) applied (← decDict (← field a "net")))
+  | "stateful_run" =>
+    let o ← decOverrides (← field a "ov")
+    let steps ← decSteps (← field a "steps")
+    let r ← match (← asStr (← field a "resolver")) with
+      | "perCall" => pure (statefulRun (.perCall : Resolver Unit) o steps)
+      | "memoPath" => pure (statefulRun (.memo Op.path) o steps)
+      | "memoOp" => pure (statefulRun (.memo fun op => op) o steps)
+      | s => .error s!"unknown resolver {s}"
+    return .arr (r.map encContainers)
+  | "examples_merge" =>
+    return encContainers (examplesMergeWith (← decContainers (← field a "kwargs")) (← decContainers (← field a "ex")))
+  | "coverage_apply" =>
+    return encContainers (coverageWith (← decContainers (← field a "kwargs")) (← decContainers (← field a "case")))
+  | "judge" =>
+    let r := judge (← decOverrides (← field a "ov")) (← decOp (← field a "op")) (← decContainers (← field a "req"))
+      (← decContainers (optField a "base"))
+    return .arr (r.map encVerdict)
   | _ => .error s!"unknown op {op}"
 
 def main : IO Unit := run handle
